@@ -54,7 +54,22 @@ def _package_function(name):
     if PACKAGE is None:
         return None
     fs = [f for f in PACKAGE.all_funcs() if f.name == name and f.parent is None and f.cls is None]
-    return fs[0] if len(fs) == 1 else None
+    if len(fs) == 1:
+        return fs[0]
+    if not fs:
+        # a helper the model spliced into its callers: the source as written still calls it
+        import types as _types
+
+        found = []
+        for mod in PACKAGE.modules.values():
+            if not hasattr(mod, "_raw_tree"):
+                mod._raw_tree = ast.parse(mod.src)
+            for st in mod._raw_tree.body:
+                if isinstance(st, ast.FunctionDef) and st.name == name:
+                    found.append(_types.SimpleNamespace(node=st, name=name, module=mod, params=[a.arg for a in st.args.posonlyargs + st.args.args]))
+        if len(found) == 1:
+            return found[0]
+    return None
 
 
 def _package_staticmethod(name):
